@@ -211,6 +211,41 @@ func dischargeAll(ctxs []*Ctx, workdir string, secs int, requireAll bool, par in
 		}(j)
 	}
 	wg.Wait()
+	// second pass: an obligation that was neither proved nor refuted (timeout / unknown) may just
+	// have lost the race for CPU against the other solver processes; retry those few with little
+	// parallelism and three times the time before calling them undecided. A refutation (sat) is
+	// final and is never retried.
+	var again []job
+	for _, j := range jobs {
+		if !j.o.Cover && j.o.Result != "unsat" && j.o.Result != "sat" {
+			again = append(again, j)
+		}
+	}
+	if len(again) == 0 || len(again) > 12 {
+		return
+	}
+	sem2 := make(chan struct{}, 3)
+	for _, j := range again {
+		wg.Add(1)
+		sem2 <- struct{}{}
+		go func(j job) {
+			defer wg.Done()
+			defer func() { <-sem2 }()
+			q := j.c.buildQuery(j.o, true)
+			r := solveQuery(workdir, j.o.Name+"-retry", q, 3*secs, false)
+			if r.result == "unsat" || r.result == "sat" {
+				j.o.Result = r.result
+				j.o.Solver = r.solver + "(retry)"
+				j.o.Secs += r.secs
+				if r.result == "sat" {
+					j.o.Model = r.output
+				} else {
+					j.o.Model = ""
+				}
+			}
+		}(j)
+	}
+	wg.Wait()
 }
 
 func (o *Obligation) discharged() bool {
